@@ -34,7 +34,8 @@ RULE = ("tb family: call chains f0->..->fk (k<=5) whose links are drawn from {ex
         "OverflowError, and three faults whose innermost node spans several lines} at every statement position of the deepest function or of an "
         "intermediate one, entered by call_func, by a direct EvalFunc.call or at file load; direct recursion and a failing "
         "module import at load time as fixed shapes.  entry family: the same fault kinds through 8 entry-point kinds x 2 "
-        "subsystems.  Distinct by payload; non-trivial when the exception crosses at least one script frame.")
+        "subsystems, plus trigger expressions that raise on their first (start-up) evaluation with state_hold_false / "
+        "state_check_now / both / neither.  Distinct by payload; non-trivial when the exception crosses at least one script frame.")
 ASSUMPTIONS = [
     "the frame-kind sequence is read off exc.__traceback__ by the harness with the same tests _build_stack uses "
     "(co_filename, co_qualname, first AST-valued local)",
@@ -116,13 +117,19 @@ PRELUDE = ["class MyErr(Exception):", "    pass", "", "def ident(v):", "    retu
            "def deco(fn):", "    def wrapper(x):", "        return fn(x)", "    return wrapper", ""]
 
 
-def build_tb_case(rng, depth, links, fault, pos, nfill, fault_level, nmod, entry):
-    """-> payload with the two source files.  Functions f0..f{depth-1}; the last `nmod` of them live in modules/m.py"""
+def build_tb_case(rng, depth, links, fault, pos, nfill, fault_level, nmod, entry, same_name=False):
+    """-> payload with the two source files.  Functions f0..f{depth-1}; the last `nmod` of them live in modules/m.py.
+    same_name: the first module function carries the NAME of its caller in a.py (two adjacent activations with one
+    function name in different files - Python reports both)"""
     files = {"a": list(PRELUDE), "m": list(PRELUDE)}
     names = []
     for i in range(depth):
         where = "m" if i >= depth - nmod else "a"
         names.append((where, f"f{i}"))
+    same_name = bool(same_name and nmod >= 1 and depth - nmod >= 1)
+    if same_name:
+        j = depth - nmod
+        names[j] = ("m", names[j - 1][1])
     for i in reversed(range(depth)):
         where, fn = names[i]
         kind = links[i]
@@ -163,11 +170,17 @@ def build_tb_case(rng, depth, links, fault, pos, nfill, fault_level, nmod, entry
     src_m = files["m"]
     return {"kind": "tb", "entry": entry, "call0": call0, "src": {"a.py": "\n".join(src_a) + "\n",
             "modules/m.py": "\n".join(src_m) + "\n"}, "depth": depth, "links": links, "fault": fault,
-            "fault_level": fault_level, "nmod": nmod}
+            "fault_level": fault_level, "nmod": nmod, "same_name": same_name}
 
 
 def fixed_tb_cases():
     out = []
+    # two adjacent functions with one name in DIFFERENT files: both frames must be reported
+    out.append({"kind": "tb", "entry": "call", "call0": "f0(1)", "src": {
+        "a.py": "import m\n\ndef check(x):\n    y = 1\n    return m.check(x)\n\ndef f0(x):\n    return check(x)\n",
+        "modules/m.py": "def check(x):\n    z = 2\n    return 1 / 0\n"},
+        "depth": 3, "links": ["same-name-other-file"], "fault": "zerodiv", "fault_level": 2, "nmod": 1,
+        "tag": "same-name-other-file"})
     # direct recursion (finding #21)
     src = "def rec1(n):\n    if n == 0:\n        raise ValueError('deep')\n    rec1(n - 1)\n\ndef f0(x):\n    rec1(2)\n"
     out.append({"kind": "tb", "entry": "call", "call0": "f0(1)", "src": {"a.py": src, "modules/m.py": "\n"},
@@ -458,6 +471,26 @@ def h2(x):
     return x
 '''
 ENTRY_KINDS = ["trig_func", "trig_expr", "active_expr", "service", "task_create", "done_callback"]
+# trigger expressions that raise on their FIRST evaluation, the one done when the trigger starts (the entity they read
+# does not exist yet): (function, state variable, is the expression evaluated at start-up?)
+STARTUP_KINDS = [("t_hold", "lvl_h", True), ("t_hold_now", "lvl_hn", True), ("t_now", "lvl_n", True),
+                 ("t_plain", "lvl_p", False)]
+STARTUP_SRC = '''@state_trigger("int(pyscript.lvl_h) > 5", state_hold_false=0.05)
+def t_hold(**kw):
+    rec("t_hold")
+
+@state_trigger("int(pyscript.lvl_hn) > 5", state_hold_false=0.05, state_check_now=True)
+def t_hold_now(**kw):
+    rec("t_hold_now")
+
+@state_trigger("int(pyscript.lvl_n) > 5", state_check_now=True)
+def t_now(**kw):
+    rec("t_now")
+
+@state_trigger("int(pyscript.lvl_p) > 5")
+def t_plain(**kw):
+    rec("t_plain")
+'''
 
 
 def entry_fault_lines(fault):
@@ -474,7 +507,8 @@ def entry_sources(p):
              "bad.py": "ok_before = 1\n\ndef boom(x):\n" + "".join("    " + l + "\n" for l in fl) + "    return x\n\nboom(0)\n",
              "badimp.py": "import badmod\n\n@service\ndef never():\n    rec('never')\n",
              "modules/badmod.py": "q = 1\n\n1 / 0\n",
-             "good.py": "@service\ndef good_svc():\n    rec('good')\n"}
+             "good.py": "@service\ndef good_svc():\n    rec('good')\n",
+             "c.py": STARTUP_SRC}
     return files
 
 
@@ -541,8 +575,16 @@ def run_entry(p):
                 await env.call("pyscript", "mk_cb", {"a": a})
             await env.settle(0.2)
 
-        # ---- load time
+        # ---- load time and trigger start-up
+        await env.settle(0.3)
         script, other = errs(0)
+        res["startup"] = {}
+        for fn, var, _evaluated in STARTUP_KINDS:
+            pat = re.compile(r"\b%s\b" % fn)
+            res["startup"][fn] = {
+                "script": [(n, parse_tb(m, env.cfgdir), m.strip().splitlines()[-1] if m.strip() else "")
+                           for n, m in script if pat.search(n + " " + m)],
+                "other": [(n, m.strip().splitlines()[0][:120] if m.strip() else "") for n, m in other if pat.search(n + " " + m)]}
         loaded = sorted(k for k in __import__("custom_components.pyscript.global_ctx", fromlist=["x"]).GlobalContextMgr.contexts)
         res["load"] = {"loaded": loaded,
                        "script": [(n, parse_tb(m, env.cfgdir), m.strip().splitlines()[-1] if m.strip() else "") for n, m in script],
@@ -571,6 +613,16 @@ def run_entry(p):
                          "other": [(n, m.strip().splitlines()[0][:80] if m.strip() else "") for n, m in other],
                          "recs_fault": recs_fault, "recs_after": len(env.records) - r1,
                          "propagated": raised, "propagated_after": raised2}
+        # ---- the triggers whose start-up evaluation failed must serve a later occurrence
+        for fn, var, _evaluated in STARTUP_KINDS:
+            n0, r0 = len(env.log), len(env.records)
+            await env.set_state("pyscript." + var, "2")
+            await env.settle(0.3)
+            await env.set_state("pyscript." + var, "8")
+            await env.settle(0.3)
+            s2, o2 = errs(n0)
+            res["startup"][fn]["recs_after"] = sum(1 for r in env.records[r0:] if r[1] == fn)
+            res["startup"][fn]["errors_after"] = len(s2) + len(o2)
         try:
             await env.call("pyscript", "good_svc")
         except Exception:  # pylint: disable=broad-except   (a healthy file that was not loaded has no service)
@@ -661,6 +713,10 @@ def entry_line(p):
         [True, lg, [[ok, True, ok, True, R], [ok, True, ok, True, ok]]],            # task.create
         [True, lg, [[ok, True, ok, True, R], [ok, True, ok, True, ok]]],            # done-callback
     ]
+    F, T = False, True
+    for _fn, _var, evaluated in STARTUP_KINDS:
+        occs = ([[R, T, ok, T, ok]] if evaluated else []) + [[ok, F, ok, T, ok], [ok, T, ok, T, ok]]
+        loops.append([True, lg, occs])
     return "C18 " + sx(["loops"] + loops)
 
 
@@ -673,6 +729,10 @@ def entry_impl_string(res):
         log = [f"script:1:tb" for _ in r["script"]] + [f"function:1:plain" for n, _ in r["other"]]
         done = r["recs_fault"] + r["recs_after"]
         parts.append(f"done:{done},log:({' '.join(log)})")
+    for fn, _var, _evaluated in STARTUP_KINDS:
+        r = res["startup"][fn]
+        log = ["script:1:tb" for _ in r["script"]] + [f"{n.split('.')[0]}:1:plain" for n, _ in r["other"]]
+        parts.append(f"done:{r['recs_after']},log:({' '.join(log)})")
     return " ; ".join(parts)
 
 
@@ -716,8 +776,10 @@ def gen_cases(rng, tier, search):
         entry = rng.choice(["call", "call", "direct", "load"])
         if links[0] == "method" and entry == "direct":
             entry = "call"
-        p = build_tb_case(rng, depth, links, fault, rng.randrange(0, nfill + 1), nfill, fault_level, nmod, entry)
+        p = build_tb_case(rng, depth, links, fault, rng.randrange(0, nfill + 1), nfill, fault_level, nmod, entry,
+                          same_name=rng.random() < 0.3)
         cases.append(Case(p, None, tags=("tb", "fault:" + fault, "entry:" + entry, "depth:%d" % depth)
+                          + (("same-name-other-file",) if p["same_name"] else ())
                           + tuple("link:" + l for l in set(links))))
     for i in range(n_entry):
         fault = fl[(i * 7 + rng.randrange(len(fl))) % len(fl)] if i >= 2 else ["zerodiv", "user"][i]
@@ -930,6 +992,19 @@ def verdict(c):
             if causes != exp[key][:-1] and deferred is None:
                 # judged last: a deviation in the cause part must not hide anything else in this run
                 deferred = f"{kind}: logged cause traceback {causes} differs from CPython {exp[key][:-1]}"
+    for fn, _var, evaluated in STARTUP_KINDS:
+        k = res["startup"][fn]
+        if k["other"]:
+            return (f"startup {fn}: the error of the trigger expression's first evaluation is reported on "
+                    f"{sorted({n for n, _ in k['other']})}, not on the script's logger")
+        if len(k["script"]) != (1 if evaluated else 0):
+            return f"startup {fn}: {len(k['script'])} error record(s) on the script's logger for the start-up evaluation"
+        for n, tb, last in k["script"]:
+            if not last.startswith("TypeError") or not any(t.startswith("c.py|") for t in tb):
+                return f"startup {fn}: record without exception type / script frame: {last[:60]!r} {tb}"
+        if k["recs_after"] != 1 or k["errors_after"]:
+            return (f"startup {fn}: after the failed start-up evaluation a later occurrence was served {k['recs_after']} "
+                    f"time(s) with {k['errors_after']} error(s) (expected once, none)")
     ld = res["load"]
     for need in ("file.a", "file.good"):
         if need not in ld["loaded"]:
@@ -1048,7 +1123,7 @@ def extra_coverage(cases):
     acc = sum(1 for c in cases if c.payload["kind"] == "tb" for a in c.payload.get("_accept", []) if a == "1")
     return {"fault_kinds": faults, "link_kinds": links, "tb_entry": entries, "chain_depth": depth,
             "frame_sequences_accepted_by_grammar": acc,
-            "entry_kinds_per_ha_case": ENTRY_KINDS + ["load", "load-import"],
+            "entry_kinds_per_ha_case": ENTRY_KINDS + ["load", "load-import"] + ["startup:" + k[0] for k in STARTUP_KINDS],
             "spec_column_equals_cpython": sum(1 for c in cases if c.payload["kind"] == "tb" and c.spec is not None
                                               and script_only(c.spec) == c.payload["_run"].get("oracle"))}
 
